@@ -101,6 +101,9 @@ class Gen:
         if per >= 0:
             p = b2f(per)
             st[0] = f2b(self.r.uniform(-40, 40) * p)
+            st[1] = f2b(self.r.gauss(0, 1) * 1e-6)      # keep the periodicity loops short (they are unbounded in the code)
+            c = [self.logu(1e-12, 1e-2), 0.0, 0.0, self.logu(1e-14, 1e-8)]
+            st[2:6] = [f2b(x) for x in c]
         return st
 
     # ---- operation-level cases -------------------------------------------------------
@@ -111,7 +114,7 @@ class Gen:
             if k == 0:
                 per = self.period()
                 st = self.bounded_state(per)
-                t = (st[6] + self.dt()) % U64
+                t = (st[6] + (self.dt() if per < 0 else fixed(self.logu(1e-3, 1e3)))) % U64
                 cases.append({"op": 1, "args": st + [t, f2b(self.wander()), per]})
             elif k == 1:
                 per = self.period()
@@ -120,11 +123,13 @@ class Gen:
                 value = b2f(st[0]) + self.r.gauss(0, 1) * self.logu(1e-9, 1.0)
                 if per >= 0:
                     value = self.r.uniform(-40, 40) * b2f(per)
-                if self.r.random() < 0.05:
+                if self.r.random() < 0.05 and per < 0:
                     value = self.anyfloat()
                 nz = self.r.choice([0.0, self.logu(1e-20, 1e2), self.logu(1e-12, 1e-4)])
-                if self.r.random() < 0.03:
+                if self.r.random() < 0.03 and per < 0:
                     nz = self.anyfloat()
+                if per >= 0:
+                    h = [1.0, 0.0]
                 cases.append({"op": 2, "args": st + [f2b(h[0]), f2b(h[1]), f2b(value), f2b(nz), per]})
             elif k == 2:
                 a = self.kstate()
@@ -144,7 +149,7 @@ class Gen:
             elif k == 5:
                 per = self.period()
                 st = self.bounded_state(per)
-                t = (st[6] + self.dt()) % U64
+                t = (st[6] + (self.dt() if per < 0 else fixed(self.logu(1e-3, 1e3)))) % U64
                 steer = self.r.gauss(0, 1) * self.logu(1e-12, 1e-3)
                 cases.append({"op": 7, "args": st + [t, f2b(steer), f2b(self.wander()), per]})
             elif k == 6:
@@ -315,8 +320,8 @@ class Gen:
 
 def line_of(case):
     op = case["op"]
-    if op == 20:
-        toks = [20] + case["cfg"] + case["noise"] + [case["period"], case["stride"]]
+    if op in (20, 21):
+        toks = [op] + case["cfg"] + case["noise"] + [case["period"], case["stride"]]
         for e in case["events"]:
             toks += e
         return " ".join(map(str, toks))
@@ -343,7 +348,7 @@ def coq_case(case, out):
         return "(2%%Z, %s)" % zl(case["args"] + [o[-1]]), zl(o[:-1])
     if op == 8:
         return "(8%%Z, %s)" % zl(case["args"] + [o[1]]), zl(o[:1])
-    if op == 20:
+    if op in (20, 21):
         n = len(case["events"])
         orc, dumps = o[:2 * n], o[2 * n:]
         inp = case["cfg"] + case["noise"] + [case["period"], case["stride"]]
@@ -352,38 +357,22 @@ def coq_case(case, out):
                 inp += e[:6] + [orc[2 * i], orc[2 * i + 1]]
             else:
                 inp += e
-        return "(20%%Z, %s)" % zl(inp), zl(dumps)
+        if op == 20:      # per dump: hash unc kind nan -- the nan flag is for the monitor only
+            dumps = [x for j, x in enumerate(dumps) if j % 4 != 3]
+        return "(%d%%Z, %s)" % (op, zl(inp)), zl(dumps)
     return "(%d%%Z, %s)" % (op, zl(case["args"])), zl(o)
 
 
-DUMP_UNC = 2   # position of observe().uncertainty inside one dump
-
-
 def history_stats(case, out):
-    """(reached the Kalman stage, number of dumps, negative uncertainties, NaN filter states)"""
+    """(dumps in the Kalman stage, number of dumps, negative uncertainties, NaN filter states)"""
     n = len(case["events"])
     d = [int(x) for x in out[2 * n:]]
-    i = 0
-    stable = 0
-    neg = 0
-    nan_state = 0
-    dumps = 0
-    nlen = 2 if case["oneway"] else 9
-    while i < len(d):
+    stable = neg = nan_state = dumps = 0
+    for i in range(0, len(d) - 3, 4):
         dumps += 1
-        if d[i + DUMP_UNC] < 0:
-            neg += 1
-        j = i + 8
-        j += 1 + (9 if d[j] == 1 else 0)
-        if d[j] == 0:
-            j += 3 + 8 + nlen
-        else:
-            stable += 1
-            st = d[j + 1:j + 7]
-            if any((b2f(x) != b2f(x)) or abs(b2f(x)) == float("inf") for x in st):
-                nan_state += 1
-            j += 1 + 7 + 5 + 5 + nlen
-        i = j
+        neg += d[i + 1] < 0
+        stable += d[i + 2]
+        nan_state += d[i + 3]
     return stable, dumps, neg, nan_state
 
 
@@ -392,24 +381,31 @@ def main():
     c.run_gate()
     g = Gen(c.rng)
     quick = c.tier == "quick"
-    cases = []
-    cases += g.op_cases(1500 if quick else 30000)
-    for _ in range(60 if quick else 1500):
-        cases.append(g.history(c.rng.choice([20, 40, 60, 90])))
+    shard = 100 if quick else 60
+    normal = g.op_cases(1500 if quick else 12000)
+    for _ in range(60 if quick else 600):
+        normal.append(g.history(c.rng.choice([20, 40, 60, 90])))
+    for _ in range(20 if quick else 300):
+        normal.append(g.system(c.rng.choice([60, 150, 400])))
+    big = []          # long cases: one per shard of the model evaluation
     if quick:
-        cases.append(g.long_history(1500, "const0"))
+        big.append(g.long_history(1500, "const0"))
+        big.append(g.long_system(2000, 2))
     else:
         for kind in ("const0", "const025", "ms"):
-            cases.append(g.long_history(10000, kind))
+            big.append(g.long_history(10000, kind))
         for st in ("r0", "alternate", "extreme_dt"):
-            cases.append(g.history(3000, style=st, stride=100))
-    for _ in range(20 if quick else 300):
-        cases.append(g.system(c.rng.choice([60, 150, 400])))
-    cases.append(g.long_system(2000 if quick else 10000, 2))
-    if not quick:
-        cases.append(g.long_system(10000, 1))
+            big.append(g.history(3000, style=st, stride=100))
+        big.append(g.long_system(10000, 2))
+        big.append(g.long_system(10000, 1))
         for st in ("r0", "alternate", "extreme_dt", "bigoffset", "dispersion"):
-            cases.append(g.system(5000, style=st))
+            big.append(g.system(5000, style=st))
+    cases = []
+    for i in range(0, len(normal), shard - 1):
+        if big:
+            cases.append(big.pop())
+        cases += normal[i:i + shard - 1]
+    cases += big
 
     notes = {"internal_nan_histories": 0, "internal_nan_system_sources": 0, "system_cases": 0, "system_events": 0,
              "system_steps": 0, "system_freq_sets": 0, "system_used_nonempty": 0, "system_resets": 0}
@@ -471,7 +467,7 @@ def main():
         monitor=monitor,
         nontrivial=nontrivial,
         key_of=lambda case: line_of(case)[:600],
-        shard=100 if quick else 60,
+        shard=shard,
         sample_of=sample_of,
     )
     c.cov["rule"] = ("operation cases (KalmanState::progress_time/absorb_measurement/merge/add_server_dispersion/steering, chi_1, "
@@ -498,8 +494,31 @@ def main():
 
 
 MANIFEST = {
-    "claimed": False,
-    "text": "",
-    "note": "",
+    "claimed": True,
+    "text": "Theorems (Coq, over the SAME generic Kalman model instantiated at the real numbers; all histories, no bounds): "
+            "C06_welldefined_exact_partial / _from: for every configuration with initial_wander != 0, every source controller (two-way "
+            "delay buffer or one-way fixed noise >= 0, periodic or not) and every list of events (measurements with arbitrary offsets/delays/"
+            "times, Step and FreqChange steering messages fed back) in which no measurement is taken at exactly the filter's current instant, "
+            "every divisor met is non-zero and every sqrt argument is non-negative in every step and in every observe() report, and the "
+            "invariant (covariance symmetric positive semidefinite, wander > 0, delay buffer >= 0) holds in every reached state; "
+            "C06_reported_uncertainty_exact: the reported uncertainty is the sqrt of a variance >= 0; operation lemmas "
+            "C06_progress/absorb/merge/dispersion/offset_steering/frequency_steering/root_dispersion_exact (merge under det(P1+P2) > 0; "
+            "root_dispersion for now >= base time). The model is executed at binary64 with Coq primitive floats and compared BIT FOR BIT "
+            "with the Rust code on every run: KalmanState operations, chi_1, AveragingBuffer, from/to_seconds, root_dispersion, f64 %, and "
+            "whole source-controller histories (full internal state hashed after every event). The property itself (every reported "
+            "number and clock argument finite, uncertainty >= 0) is monitored on adversarial source histories and on whole-system "
+            "histories with the real KalmanClockController and a mock clock whose steering is fed back.",
+    "note": "PARTIAL: the theorems are in exact (real) arithmetic; that the rounded binary64 computation keeps the observables finite for "
+            "every history is not proved (run-time search only: constant noise-free runs of 10^4 samples, R=0, alternating +-2^30 s offsets, "
+            "1 ms / 2^17 s spacing, huge root dispersion). Observation O-1 (internal NaN state after ~7800 noise-free samples, masked by "
+            "from_seconds(NaN)=0 in release) is recorded in the evidence, not reported. The clock controller (select/combine/steer in mod.rs) "
+            "is not modelled here (C01-C03); its float outputs (set_frequency argument, TimeSnapshot floats) are covered by the monitor only. "
+            "Oracles: libm exp in chi_1 and the monotonic-clock difference of the meddling check are read from the implementation and are "
+            "universally quantified in the theorems. The periodicity loops are modelled with fuel 300 (the code's loops are unbounded). "
+            "debug!-only sqrt calls are not modelled. Trusted: Coq kernel + vm_compute incl. primitive floats/ints, hand-written model "
+            "coq/Model/Kalman.v + KalmanRun.v + Base/KFloat.v, harness + driver, that every division/sqrt of the model goes through "
+            "divM/sqrtM (by construction of the file; census of sites tied in Proofs/KalmanTie.v). Print Assumptions: stdlib real axioms "
+            "(sig_forall_dec, sig_not_dec, functional_extensionality_dep) and the primitive float/int constants used to evaluate literals "
+            "(float, int, opp, abs, div, ltb, eqb, of_uint63, normfr_mantissa, frshiftexp, ldshiftexp, PrimInt63 sub/lsl/lsr/lor/land/eqb).",
     "design_ref": "DESIGN.md 3 C06",
 }
